@@ -65,3 +65,7 @@ func VerifLossyFilterStrengths(simple bool, level, sharpness int, useLFDelta boo
 	useSegment, absoluteDelta bool, segStrength [4]int) [4][2][4]int {
 	return lossy.VerifFilterStrengths(simple, level, sharpness, useLFDelta, refDelta0, modeDelta0, useSegment, absoluteDelta, segStrength)
 }
+
+func VerifLossyGetCoeffs(data []byte, warm []uint8, probs [8][3][11]uint8, ctx, dq0, dq1, n int) (nz int, out [16]int16, value uint64, rng uint32, bits int, eof bool) {
+	return lossy.VerifGetCoeffs(data, warm, probs, ctx, dq0, dq1, n)
+}
